@@ -12,6 +12,7 @@
 #include <unifex/v2/async_manual_reset_event.hpp>
 #include <unifex/inplace_stop_token.hpp>
 
+#include <cstdlib>
 #include <optional>
 
 namespace {
@@ -272,6 +273,14 @@ struct V2World {
   void stop(int k) { rt::obs("stop%d.begin", k); stop_begun[k] = true; src[k].request_stop(); rt::obs("stop%d.end", k); }
   void finish(int nw) {
     for (int k = 0; k < nw; ++k) if (completions[k] != 1) rt::fail("v2 waiter %d completed %d times at quiescence", k, completions[k]);
+    // opt-in diagnostic for DESIGN §8 #4 (C02's subject, not part of C16's verdict): after the wait
+    // operations are destroyed, has every schedule operation they created been destroyed?
+    if (getenv("C16_LIFETIME")) {
+      for (int k = 0; k < nw; ++k) { opp[k].destroy(); ops[k].destroy(); }
+      for (int k = 0; k < nw; ++k)
+        if (ctx[k].ops_constructed != ctx[k].ops_destroyed)
+          rt::fail("v2 waiter %d: %d schedule operations constructed, %d destroyed (reschedule_op_ is never destructed)", k, ctx[k].ops_constructed, ctx[k].ops_destroyed);
+    }
   }
 };
 template <bool S> void V2Recv<S>::set_value() && noexcept { w->completed(k, true); }
